@@ -289,6 +289,11 @@ func cmdCheck(args []string) int {
 		if opt.MaxWitnesses > 0 {
 			opt.WitnessEvery = 7 + seed%5
 		}
+		if tc.MapOrders {
+			// a path that depends on a map iteration order cannot be steered
+			// natively (Go randomises it): no witness replays in such tiers
+			opt.MaxWitnesses, opt.WitnessEvery = 0, 0
+		}
 		rep, err := interp.Explore(prog, fn, cfg, opt)
 		if err != nil {
 			fmt.Fprintln(os.Stderr, "ERROR:", err)
